@@ -20,7 +20,9 @@ GO = "/opt/veriftools/go1.26.8/bin/go"
 
 # per-package opt-in selector rewrites: no process is spawned by internal/externalcmd under the scheduler
 DEFAULT_EXTRA = ("github.com/bluenviron/mediamtx/internal/externalcmd:"
-                 "os/exec.Command=XCommand,os/exec.Cmd=XCmd,syscall.Kill=XKill")
+                 "os/exec.Command=XCommand,os/exec.Cmd=XCmd,syscall.Kill=XKill;"
+                 "github.com/bluenviron/mediamtx/internal/confwatcher:"
+                 "github.com/fsnotify/fsnotify.NewWatcher=FNewWatcher,github.com/fsnotify/fsnotify.Watcher=FWatcher")
 
 
 def add_dir(rep, src, dst):
